@@ -1,14 +1,14 @@
 SPECIFICATION Spec
 CONSTANTS
-  AlgoPrms <- AlgoPrmsThorough
-  Mats <- MatsQuick
-  States <- StatesBasis
-  Loads <- LoadsQuick
-  Gs <- GsQuick
+  AlgoPrms <- AlgoPrmsSwitch
+  Mats <- MatsTwo
+  States <- StatesSwitch
+  Loads <- LoadsSwitch
+  Gs <- GsOne
   ConsSet <- BoolSet
-  MaxSteps = 1
+  MaxSteps = 2
   Emit = TRUE
-  MatChange = FALSE
+  MatChange = TRUE
   Mutant = "none"
 INVARIANT Motion
 INVARIANT Prescribed
